@@ -129,6 +129,8 @@ Definition expected_nexthop (f : N) (nh : list N) : list N :=
   if is_flowspec f then []
   else if is_vpn f then
     if blen nh =? 32 then zeros 8 ++ firstn 16 nh ++ zeros 8 ++ skipn 16 nh else zeros 8 ++ nh
+  else if (blen nh =? 4) && (afi f =? 2) && negb (nh_as_is f) then
+    zeros 10 ++ [255; 255] ++ nh       (* RFC 4798 2: the IPv4-mapped IPv6 address, AFI 2 needs 16 octets *)
   else nh.
 
 (* ---- capabilities (RFC 5492: <code, length, value>) *)
@@ -154,12 +156,12 @@ Definition fam_ok (f : N) : Prop := f = fam (afi f) (safi f) /\ afi f < 65536.
 Definition maxbits_of (f : N) : N := if afi f =? 1 then 32 else 128.
 
 (* (family, next hop) pairs a speaker announces: an IPv4 next hop in the legacy form; in
-   MP_REACH_NLRI none for Flowspec, an address of 4 / 16 / 32 octets otherwise, where AFI 2
-   cannot carry the 4-octet form (RFC 4760 3, RFC 2545 3) *)
+   MP_REACH_NLRI none for Flowspec, an address of 4 / 16 / 32 octets otherwise (for AFI 2 a
+   4-octet address travels IPv4-mapped, see expected_nexthop) *)
 Definition nh_representable (c : codec) (f : N) (b : list N) : Prop :=
   if legacy c f then blen b = 4
   else blen b < 248 /\
-       (is_flowspec f = true \/ is_vpn f = true \/ 16 <= blen b \/ nh_as_is f = true \/ (blen b <> 0 /\ afi f <> 2)).
+       (is_flowspec f = true \/ is_vpn f = true \/ 16 <= blen b \/ nh_as_is f = true \/ blen b = 4 \/ (blen b <> 0 /\ afi f <> 2)).
 
 Definition expected_nh (c : codec) (f : N) (b : list N) : list N :=
   if legacy c f then b else expected_nexthop f b.
